@@ -269,6 +269,12 @@ class CallMixin:
         if isinstance(fv, FuncV):
             if isinstance(fv.func, FuncInfo):
                 recv = fv.recv
+                if isinstance(recv, ClassV) and args and isinstance(args[0], (ParserV, ComposerV)) and getattr(fv.func, 'kind', None) not in ('staticmethod', 'classmethod'):
+                    # ``ComposerBinary.compose_numeric(composer, value, size)``: the method taken from the class (a row of a field
+                    # table) and called with the instance as first argument is the bound call
+                    fv = FuncV(fv.func, recv=args[0], defcls=fv.defcls)
+                    args = list(args[1:])
+                    recv = fv.recv
                 if isinstance(recv, Sym) and recv.op == 'phi' and len(recv.args) > 1 and all(isinstance(a, ParserV) for a in recv.args):
                     # the same primitive on whichever parser the earlier branch left behind
                     res = [self.call_v(FuncV(fv.func, recv=a, defcls=fv.defcls), args, kwargs, fr, node, star) for a in recv.args]
